@@ -40,7 +40,7 @@ def verus_engine(prop, tier, scratch):
     # becomes UNDECIDED, the other properties are still decided.
     skip = set(SKIP_CACHE.get(cl.REPO, ()))
     isolated = {}
-    for attempt in range(4):
+    for attempt in range(6):
         text, info = build_unit.build(cl.REPO, skip=frozenset(skip))
         unit = os.path.join(scratch, 'evx_unit.rs')
         open(unit, 'w').write(text)
@@ -64,6 +64,9 @@ def verus_engine(prop, tier, scratch):
         contracted = {name for (ln, mod, name, props, ex) in fntab if props is not None}
         new = (offenders & contracted) - skip
         if not new:
+            # already isolated and still rejected (a rustc-level error inside the body): drop the body as well
+            new = set('!' + n for n in (offenders & contracted) if ('!' + n) not in skip)
+        if not new:
             raise Undecided('unit rejected before verification (unsupported construct / compile error): %s' % msgs[:500])
         skip |= new
     else:
@@ -75,7 +78,7 @@ def verus_engine(prop, tier, scratch):
             if name in skip and props:
                 affected.update(props)
         if prop in affected or prop == 'C01':
-            raise Undecided('function(s) %s left the verifiable subset on this tree (%s)' % (sorted(skip), '; '.join('%s: %s' % kv for kv in sorted(isolated.items()))[:400]))
+            raise Undecided('function(s) %s left the verifiable subset on this tree (%s)' % (sorted(n for n in skip if not n.startswith('!')), '; '.join('%s: %s' % kv for kv in sorted(isolated.items()))[:400]))
     lost = info.get('lost_fns') or {}
     if lost:
         affected = set()
@@ -157,7 +160,7 @@ def verus_engine(prop, tier, scratch):
         if c['fn'] in expected or c['fn'] is None:
             raise Undecided('%s in %s: %s' % (c['kind'], c['fn'], c['msg'][:200]))
     return {'unit': unit, 'text': text, 'info': info, 'fntab': fntab, 'run': r, 'ledger': led, 'obligations': obligations,
-            'failures': failures, 'trusted': cl.trusted_scan(text) + ['AUTO-ISOLATED (contract assumed, outside the verifiable subset on this tree): ' + n for n in sorted(skip)]
+            'failures': failures, 'trusted': cl.trusted_scan(text) + ['AUTO-ISOLATED (contract assumed, outside the verifiable subset on this tree): ' + n for n in sorted(skip) if not n.startswith('!')]
             + ['ANCHOR LOST (contract %s): %s' % ('dropped' if d.get('missing') else 'assumed', n) for n, d in sorted(lost.items())], 'cmd': r['cmd']}
 
 
